@@ -158,6 +158,9 @@ enum Work {
     /// bits over the degree-4 extension: n, x (base value), digits as extension elements
     /// (u64::MAX-k encodes -k)
     BitsExt(usize, [u64; 4], Vec<[u64; 4]>),
+    /// the same value decomposed twice in one circuit (widths n1 then n2, honest hints): the
+    /// claimed n2-bit digits are public
+    BitsTwice(usize, usize, u64, Vec<u64>),
 }
 
 struct Case {
@@ -212,6 +215,24 @@ fn bits_cases(n: usize, xs: &[u64], out: &mut Vec<Case>) {
                 work: Work::Bits(n, xv, digits),
             });
         }
+    }
+}
+
+/// decompose_to_bits twice on the same value, widths n1 then n2 (honest hints): the second
+/// decomposition has to stand on its own — for a value that does not fit n2 bits the claim "these
+/// are its n2 bits" (the low bits) must be rejected whatever was decomposed before.
+fn bits_twice_cases(out: &mut Vec<Case>) {
+    for (n1, n2, xv) in [(31usize, 8usize, 300u64), (8, 31, 300), (31, 8, 44), (16, 3, 13), (3, 2, 5), (31, 31, 300), (8, 8, 200)] {
+        // both decompositions are part of the circuit: it is satisfiable iff x fits both widths
+        let fits = xv >> n2 == 0 && xv >> n1 == 0;
+        let low: Vec<u64> = (0..n2).map(|i| (xv >> i) & 1).collect();
+        out.push(Case {
+            site: format!("decompose_to_bits twice (n={n1} then n={n2})/babybear-d1"),
+            class: if fits { "canonical" } else { "low_bits_of_a_value_that_does_not_fit" },
+            detail: format!("x={xv} digits=low {n2} bits"),
+            canonical: fits,
+            work: Work::BitsTwice(n1, n2, xv, low),
+        });
     }
 }
 
@@ -332,6 +353,22 @@ fn coeff_cases(mode: &'static str, out: &mut Vec<Case>) {
 
 fn run_case(w: &Work) -> Outcome {
     match w {
+        Work::BitsTwice(n1, n2, xv, digits) => {
+            let mut b = CircuitBuilder::<BB>::new();
+            let x = b.public_input();
+            let _wide = b.decompose_to_bits::<BB>(x, *n1).unwrap();
+            let narrow = b.decompose_to_bits::<BB>(x, *n2).unwrap();
+            let k = b.define_const(BB::from_u64(K));
+            let ys: Vec<ExprId> = (0..*n2).map(|_| b.public_input()).collect();
+            for i in 0..*n2 {
+                let m = b.mul(narrow[i], k);
+                b.connect(m, ys[i]);
+            }
+            let c = b.build().unwrap();
+            let mut pubs = vec![BB::from_u64(*xv)];
+            pubs.extend(digits.iter().map(|d| BB::from_u64(*d) * BB::from_u64(K)));
+            prove_bb::<BB, 1>(&c, &pubs)
+        }
         Work::Bits(n, xv, digits) => {
             let c = bits_circuit(*n);
             let d: Vec<BB> = digits.iter().map(|v| BB::from_u64(*v)).collect();
@@ -522,6 +559,7 @@ fn main() {
     for (n, x) in [(33usize, [5u64, 2, 0, 0]), (62, [5, 2, 0, 0]), (62, [0, 0, 0, 0]), (64, [1, 3, 1, 0])] {
         bits_multilimb_cases(n, x, &mut cases);
     }
+    bits_twice_cases(&mut cases);
     for mode in ["alu", "npo", "npo_coeff"] {
         coeff_cases(mode, &mut cases);
     }
